@@ -15,13 +15,17 @@ TolOf(c)  == Tol[RowOf(c).res]
 
 (* structural well-formedness of a Cfg event against the catalogue *)
 CfgOK(c) == /\ c.fam \in Families
-            /\ \A g \in {c.groups[i] : i \in 1..Len(c.groups)} : g \in {"EOS", "PDE", "ADM", "RH", "FIN"}
+            /\ \A g \in {c.groups[i] : i \in 1..Len(c.groups)} : g \in {"EOS", "PDE", "ADM", "RH", "FIN", "INT"}
 
 Groups(c) == {c.groups[i] : i \in 1..Len(c.groups)}
 
+(* two-gamma problems: the gamma of the side of the contact the point lies on *)
+ParSide(c, reg) == IF SideOf(reg) = "l" THEN [gm1 |-> c.par.gm1l, gamma |-> c.par.gammal]
+                                        ELSE [gm1 |-> c.par.gm1r, gamma |-> c.par.gammar]
 EosClauses(c, e) ==
   LET row == RowOf(c) t == TolOf(c).sl IN
   CASE row.eos = "gamma"    -> EosGamma(c.par, e.v, t)
+    [] row.eos = "gamma2"   -> EosGamma(ParSide(c, e.reg), e.v, t)
     [] row.eos = "cog"      -> EosCog(c.par, e.v, t)
     [] row.eos = "additive" -> EosAdditive(e.bal, TolOf(c).bal)
     [] OTHER -> {}
@@ -40,15 +44,41 @@ PtClauses(c, e) ==
   \cup (IF e.fin /\ "PDE" \in g THEN PdeClauses(c, e) ELSE {})
   \cup (IF e.fin /\ "ADM" \in g THEN AdmPoint(e.v, RowOf(c).vacuum) ELSE {})
 
-(* jump laws: flux balances in the frame of the discontinuity + compressive *)
+(* jump laws: flux balances in the frame of the discontinuity + compressive; *)
+(* a contact carries equal pressure and normal velocity and moves with the fluid *)
 JumpClauses(c, j) ==
   LET g == Groups(c) t == TolOf(c).jump IN
        (IF "RH" \in g
         THEN  Chk("RH.mass", Balanced(j.bal.mass, t))
          \cup Chk("RH.mom",  Balanced(j.bal.mom, t))
          \cup Chk("RH.ener", Balanced(j.bal.ener, t))
+         \cup (IF j.kind = "contact"
+               THEN  Chk("RH.contact.p", Balanced(j.cont.p, t))
+                \cup Chk("RH.contact.u", Balanced(j.cont.u, t))
+                \cup Chk("RH.contact.speed", Balanced(j.cont.s, t))
+               ELSE {})
         ELSE {})
   \cup (IF "ADM" \in g /\ j.kind = "shock" THEN Chk("ADM.compressive", Compressive(j)) ELSE {})
+
+(* monotone variation inside a rarefaction fan (action property on consecutive points) *)
+Dir(a, b) == IF SLLt(a, b) THEN 1 ELSE IF SLLt(b, a) THEN -1 ELSE 0
+StepClauses(c, p, e) ==
+  IF "ADM" \in Groups(c) /\ p # NoPt /\ p.reg = e.reg /\ e.reg \in DOMAIN FanDir /\ p.fin /\ e.fin
+  THEN UNION { Chk("ADM.fan-monotone." \o f, Dir(p.v[f], e.v[f]) = FanDir[e.reg][f]) : f \in {"p", "rho", "u"} }
+  ELSE {}
+
+(* integral balances (C04, C11) and bounds (C17: values between the constant states) *)
+IntClauses(c, e) ==
+  IF "INT" \in Groups(c)
+  THEN Chk("INT.window", e.window_ok)
+       \cup UNION { Chk("INT." \o n, Balanced(e.bal[n], TolOf(c).bal)) : n \in DOMAIN e.bal }
+  ELSE {}
+BndClauses(c, e) ==
+  IF "ADM" \in Groups(c)
+  THEN UNION { Chk("ADM.between." \o f, SLLe(e.b[f].lo, e.b[f].min, TolOf(c).sl) /\ SLLe(e.b[f].max, e.b[f].hi, TolOf(c).sl)) : f \in DOMAIN e.b }
+  ELSE {}
+
+FinalOK(c, r) == RowOf(c).final = {} \/ r \in RowOf(c).final
 
 GrammarOK(c, from, kind, to) == <<from, kind, to>> \in RowOf(c).grammar
 RegionOK(c, r) == r \in RowOf(c).regions
